@@ -69,6 +69,9 @@ TYPES = [
     ('seq-default-nested', ('SEQ', (('h', INT, 'R', None),
                                     ('n', ('SEQ', (('a', INT, 'R', None), ('inner', ('SEQ', (('x', INT, 'R', None),)), 'R', None))),
                                      'D', M.freeze({'a': 0, 'inner': {'x': 0}})))), {'h': 5, 'n': {'a': 0, 'inner': {'x': 0}}}),
+    ('seq-default-record', ('SEQ', (('h', INT, 'R', None),
+                                    ('n', ('SET', (('a', INT, 'D', 0), ('b', OCTS, 'O', None))), 'D', M.freeze({'a': 0})))),
+     {'h': 1, 'n': {'a': 0}}),
     ('seq-wc-absent', ('CON', ('WC', ('b', 'A')), SC.SEQ_OD), {'a': 1, 'c': False}),
     ('seqof-size', ('CON', ('SZ', 1, 3), ('SEQOF', INT)), [1, 2]),
 ]
